@@ -25,9 +25,19 @@ pub struct Sc {
     pub env_vars: usize,
     pub env_val_len: usize,
     pub initial: Vec<String>,
+    /// replace mode (-I {}): `initial` holds templates, every input line is one invocation
+    /// whose arguments are the templates with {} replaced by the line
+    #[serde(default)]
+    pub replace: bool,
 }
 
 pub struct C06;
+
+/// (literal bytes, occurrences of {}) of a template
+fn template_shape(t: &str) -> (usize, usize) {
+    let m = t.matches("{}").count();
+    (t.len() - 2 * m, m)
+}
 
 fn arg_bytes(i: usize, len: usize) -> Vec<u8> {
     let c = b'a' + (i % 26) as u8;
@@ -195,6 +205,49 @@ impl Property for C06 {
                 push(&mut groups, rng.urange(1, 50), rng.urange(1, 200), &mut cost);
             }
         }
+        if rng.chance(1, 6) {
+            // replace mode: the command line that is run is built by substitution, so its size
+            // is a multiple of the line length; aim at the per-argument limit and at the budget
+            let ntempl = rng.small(1, 4);
+            let mut initial: Vec<String> = vec![];
+            for _ in 0..ntempl {
+                let mut t = String::new();
+                for _ in 0..rng.small(1, 4) {
+                    match rng.weighted(&[2, 5, 1]) {
+                        0 => t.push_str(*rng.pick(&["x", "--opt=", "pre/", ".suf"])),
+                        1 => t.push_str("{}"),
+                        _ => t.push_str("{}{}{}"),
+                    }
+                }
+                initial.push(t);
+            }
+            let shapes: Vec<(usize, usize)> = initial.iter().map(|t| template_shape(t)).collect();
+            let m_max = shapes.iter().map(|s| s.1).max().unwrap_or(0).max(1);
+            let m_sum = shapes.iter().map(|s| s.1).sum::<usize>().max(1);
+            let env_cost = env_vars * (env_val_len + 4 + 2 + 8) + 40;
+            let mut groups = vec![];
+            for _ in 0..rng.small(1, 6) {
+                let l = match rng.weighted(&[3, 4, 4, 1]) {
+                    0 => rng.urange(1, 200),
+                    // one substituted argument at the per-argument limit
+                    1 => (MAX_ARG_STRLEN / m_max + 3).saturating_sub(rng.urange(0, 6)).max(1),
+                    // the whole command line at the kernel's budget
+                    2 => (budget.saturating_sub(env_cost + 2048) / m_sum + 600).saturating_sub(rng.urange(0, 1200)).clamp(1, MAX_ARG_STRLEN + 10),
+                    _ => rng.urange(1, MAX_ARG_STRLEN + 100),
+                };
+                groups.push((rng.small(1, 3), l));
+            }
+            return Sc {
+                opts: vec![Opt::ReplI("{}".into())],
+                groups,
+                nul: rng.chance(1, 3),
+                rlimit_stack,
+                env_vars,
+                env_val_len,
+                initial,
+                replace: true,
+            };
+        }
         let mut opts = vec![];
         if rng.chance(1, 5) {
             opts.push(Opt::N(*rng.pick(&[1000, 5000, 100_000, 1_000_000])));
@@ -214,6 +267,7 @@ impl Property for C06 {
             env_vars,
             env_val_len,
             initial,
+            replace: false,
         }
     }
 
@@ -259,9 +313,16 @@ impl Property for C06 {
         let mut e2big = None;
         let mut max_cost = 0usize;
         let mut oversize_handed = None;
+        let mut spawn_lens: Vec<Vec<usize>> = vec![];
         for ev in &obs.log.events {
             if let Event::Spawn { argv, real_status, .. } = ev {
                 rep.steps += 1;
+                if sc.replace {
+                    spawn_lens.push(argv.iter().skip(1).map(|a| a.0.len()).collect());
+                    if let Some(a) = argv.iter().find(|a| a.0.len() + 1 > MAX_ARG_STRLEN) {
+                        oversize_handed = Some(a.0.len());
+                    }
+                }
                 let cost = kernel_cost(argv.iter().map(|a| a.0.len()), argv.len(), &env);
                 max_cost = max_cost.max(cost);
                 for a in &argv[ncmd.min(argv.len())..] {
@@ -310,6 +371,59 @@ impl Property for C06 {
                 "C06.oversize-argument-handed-to-exec",
                 format!("{ctxs}: an argument of {l} bytes (beyond the per-argument limit {}) was handed to exec", MAX_ARG_STRLEN - 1),
             );
+            return;
+        }
+        if sc.replace {
+            rep.probe("replace_mode");
+            let shapes: Vec<(usize, usize)> = sc.initial.iter().map(|t| template_shape(t)).collect();
+            let env_cost: usize = env.iter().map(|(k, v)| k.len() + v.len() + 2 + 8).sum::<usize>() + 16 + 2 * ("/bin/true".len() + 1) + 8;
+            let raw_templates: usize = sc.initial.iter().map(|t| t.len() + 1 + 8).sum();
+            let slack = 2048 + 4096;
+            let mut expect: Vec<Vec<usize>> = vec![];
+            let mut stop: Option<(usize, bool)> = None;
+            for (i, l) in lens.iter().enumerate() {
+                let args: Vec<usize> = shapes.iter().map(|(lit, m)| lit + m * l).collect();
+                let total: usize = env_cost + args.iter().map(|a| a + 1 + 8).sum::<usize>();
+                let certain = args.iter().any(|a| a + 1 > MAX_ARG_STRLEN) || total > budget;
+                // xargs also charges the line itself next to the unsubstituted templates
+                let as_line = env_cost + raw_templates + l + 1 + 8;
+                let gray = !certain && (total + slack > budget || as_line + slack > budget || l + 1 > MAX_ARG_STRLEN);
+                if certain || gray {
+                    stop = Some((i, certain));
+                    if certain {
+                        rep.probe("substituted_command_line_too_large");
+                    }
+                    break;
+                }
+                if total * 10 > budget * 8 || args.iter().any(|a| (a + 1) * 10 > MAX_ARG_STRLEN * 9) {
+                    rep.probe("substituted_command_line_near_a_limit");
+                }
+                expect.push(args);
+            }
+            let describe = |k: usize| format!("{ctxs}: line #{k} of {} bytes", lens.get(k).copied().unwrap_or(0));
+            match stop {
+                None => {
+                    if spawn_lens != expect {
+                        let at = spawn_lens.iter().zip(&expect).position(|(a, b)| a != b).unwrap_or(spawn_lens.len().min(expect.len()));
+                        rep.fail("C06.replace-invocations", format!("{}: {} invocations, {} expected; first difference at #{at}: {:?} vs {:?}; exit {:?}; stderr: {}", describe(at), spawn_lens.len(), expect.len(), spawn_lens.get(at), expect.get(at), obs.status, crate::sys::lossy(&obs.stderr[..obs.stderr.len().min(200)])));
+                    } else if obs.status != RunStatus::Exit(0) {
+                        rep.fail("C06.exit-status", format!("{ctxs}: all invocations accepted but exit status {:?}", obs.status));
+                    }
+                }
+                Some((i, certain)) => {
+                    let prefix_ok = spawn_lens.len() >= i && spawn_lens[..i] == expect[..];
+                    let reported = obs.status == RunStatus::Exit(1) && !obs.stderr.is_empty() && spawn_lens.len() == i;
+                    if !prefix_ok {
+                        rep.fail("C06.replace-invocations", format!("{}: the {} lines before it were not all run as expected ({} invocations)", describe(i), i, spawn_lens.len()));
+                    } else if certain && !reported {
+                        rep.fail(
+                            "C06.oversize-argument-not-reported",
+                            format!("{}: the substituted command line cannot be passed; expected exit 1 with a diagnostic and nothing after it, got {:?}, {} invocations, stderr: {}", describe(i), obs.status, spawn_lens.len(), crate::sys::lossy(&obs.stderr[..obs.stderr.len().min(200)])),
+                        );
+                    }
+                    // gray zone: either outcome; nothing more is demanded after it
+                }
+            }
             return;
         }
         // which arguments must / must not be deliverable alone
@@ -406,7 +520,7 @@ impl Property for C06 {
             s.env_vars /= 2;
             out.push(s);
         }
-        if !sc.initial.is_empty() {
+        if !sc.initial.is_empty() && !sc.replace {
             let mut s = sc.clone();
             s.initial.clear();
             out.push(s);
@@ -415,6 +529,15 @@ impl Property for C06 {
             let mut s = sc.clone();
             s.nul = false;
             out.push(s);
+        }
+        if sc.replace {
+            for i in 0..sc.initial.len() {
+                if sc.initial.len() > 1 {
+                    let mut s = sc.clone();
+                    s.initial.remove(i);
+                    out.push(s);
+                }
+            }
         }
         for i in 0..sc.groups.len() {
             if sc.groups.len() > 1 {
@@ -442,7 +565,7 @@ impl Property for C06 {
     }
 
     fn rule() -> &'static str {
-        "one evaluation = one seeded scenario (argument count 1..600000, length distribution from all-1-byte through mixed to at/over the per-argument limit, RLIMIT_STACK from 512 KiB to unlimited, environment from empty to ~100 KiB in few large or many tiny variables, optional -n/-s, default or -0 input) run through xargs_main with every invocation really exec'ing /bin/true under that stack limit and environment: the fault is execve returning E2BIG, and this kernel is the judge; distinct = distinct (invocation-count bucket, argument-count bucket, stack limit, environment bucket, longest-argument bucket, exit status); non-trivial = E2BIG fired or a boundary probe hit (128 KiB floor, 6 MiB cap, unlimited stack, invocation within 10% of the kernel budget, several invocations, unpassable argument)"
+        "one evaluation = one seeded scenario (argument count 1..600000, length distribution from all-1-byte through mixed to at/over the per-argument limit, RLIMIT_STACK from 512 KiB to unlimited, environment from empty to ~100 KiB in few large or many tiny variables, optional -n/-s, default or -0 input; in one run of six replace mode -I {} with templates carrying 1-6 occurrences of {} and lines sized so that a substituted argument lands at the per-argument limit or the whole substituted command line at the kernel budget) run through xargs_main with every invocation really exec'ing /bin/true under that stack limit and environment: the fault is execve returning E2BIG, and this kernel is the judge; distinct = distinct (invocation-count bucket, argument-count bucket, stack limit, environment bucket, longest-argument bucket, exit status); non-trivial = E2BIG fired or a boundary probe hit (128 KiB floor, 6 MiB cap, unlimited stack, invocation within 10% of the kernel budget, several invocations, unpassable argument)"
     }
 
     fn components() -> Value {
